@@ -14,6 +14,8 @@ TARGETS["queues.norecl"] = dict(src="scenarios/queues.cpp", defs=["-DXV_NORECL"]
 for n in range(16):
     TARGETS["reclaim.R%d" % n] = dict(src="scenarios/reclaim.cpp", defs=["-DXV_RECL=%d" % n])
 
+TARGETS["deque"] = dict(src="scenarios/deque.cpp", defs=[])
+
 GENERIC_KINDS = {"use-after-free", "wild-access", "double-free", "bad-free", "crash", "hang", "deadlock", "watchdog"}
 RACE_KINDS = {"race", "race-free", "race-free-vs-atomic"}
 
@@ -45,6 +47,8 @@ def attribute(scenario, config, kind, primary, weak):
             props = ["C16"]
         else:  # crashes, heap errors, hangs: the history is broken for every property this scenario serves
             props = [lin, "C07"]
+    elif fam == "deque":
+        props = ["C16"] if kind in ("solo-bound", "solo-blocked") else ["C12"]
     elif fam == "reclaim":
         if kind in ("solo-bound", "solo-blocked"):
             props = ["C16"]
@@ -249,11 +253,50 @@ def plan_c03():
 
 PLANS["C03"] = plan_c03()
 
+def plan_simple(prop, target, pattern, execs_quick, execs_thorough, rule, gate_counters, chunks=4):
+    """Scenario without reclaimer parameter: split the executions of every configuration over several seeds/processes."""
+    def targets(tier):
+        return [(target, "xrt-prod")]
+
+    def jobs(tier, seed, list_configs):
+        execs = execs_quick if tier == "quick" else execs_thorough
+        jobs = []
+        for c in cfgs_matching(list_configs, target, "xrt-prod", pattern):
+            for k in range(chunks):
+                jobs.append(dict(target=target, variant="xrt-prod", timeout=3600,
+                                 args=["--cfg", c, "--mode", "sc", "--seed", str(seed * 100 + k), "--execs", str(execs // chunks)]))
+        return jobs
+
+    def gates(tier, agg, counters, per_config, distinct):
+        msgs = []
+        if agg["execs"] == 0:
+            msgs.append("no executions")
+        if distinct < 100:
+            msgs.append("only %d distinct non-trivial histories" % distinct)
+        for c, minimum in gate_counters.items():
+            if counters.get(c, 0) < minimum:
+                msgs.append("counter %s = %d < %d" % (c, counters.get(c, 0), minimum))
+        return msgs
+
+    return dict(targets=targets, jobs=jobs, gates=gates, rule=rule, assumptions=ASSUME_XRT, level="exploration")
+
+
+PLANS["C12"] = plan_simple(
+    "C12", "deque", r".", 4000, 60000,
+    "each evaluation = owner-only prefix of 0..64*capacity push/take pairs (moves top/bottom to an arbitrary offset), then one owner (3-11 push/pop) "
+    "and 1-3 thieves (1-5 steals each) under one seeded schedule, then a drain; judged by a WGL search against a sequential deque in which a steal "
+    "may fail while overlapping another operation; every returned pointer must be a pushed item; capacities 2/4/8, growing and fixed arrays",
+    {"executions_with_growth": 200, "successful_concurrent_steals": 1000, "failed_steals_under_overlap": 10})
+
 # ---------------------------------------------------------------------------------------------------- manifest metadata
 NOT_YET = {}
 _LEVEL_NOTE = ("Trusted base: the xrt runtime (scheduler, vector clocks, heap shadow) and the sequential models in monitors/; gcc 12 -O1 "
                "TSan-instrumented build of the header-only library from /repo's working tree; executions explored = seeded sample, not all schedules.")
 META = {
+    "C12": dict(design_ref="DESIGN.md 5/C12", technique="runtime monitoring: recorded histories under a controlled scheduler + WGL linearizability oracle (deque with failing steals) + pushed-item ledger",
+                level_text="Owner/thief histories with growth of the array inside the concurrent part and top/bottom moved to arbitrary offsets beforehand; every history is decided "
+                           "exactly by the linearizability search; a returned pointer that is not a pushed item is a violation before it is dereferenced.",
+                level_note=_LEVEL_NOTE),
     "C03": dict(design_ref="DESIGN.md 5/C03 and 3.3", technique="runtime monitoring: happens-before (vector clock) race detector on plain accesses + fault injection of stale reads / spurious CAS failures under a view-based memory model, all scenario oracles re-run",
                 level_text="The runtime keeps per-location store histories and vector clocks and lets loads return stale-but-legal messages on the production memory orders and "
                            "on the TSan variant; every other oracle (heap shadow, linearizability, ownership, lifetime) is re-evaluated on these executions with happens-before "
